@@ -822,6 +822,9 @@ func (x *Exec) recordEvent(st *State, kind string, args []Value, results []Value
 		switch fv := a.(type) {
 		case *ClosureV:
 			t = StrT(funcKey(x.w.unwrapBound(fv.fn))) // function values are logged by the name of the function they denote
+			if m := boundIfaceMethod(fv.fn); m != "" {
+				t = StrT("method:" + m) // a method value of an interface (t.converter.BinaryOperation): by the method's name
+			}
 		case *ParamFuncV:
 			t = StrT("param:" + fv.name)
 		case *BoundMethodV:
@@ -1270,6 +1273,22 @@ func mentionsOld(e ast.Expr) bool {
 }
 
 // unwrapBound: the method behind a bound-method wrapper (p.evaluateX used as a value).
+// boundIfaceMethod: for the synthetic wrapper of a method value taken from an interface, the name of
+// the method it invokes ("" for anything else).
+func boundIfaceMethod(fn *ssa.Function) string {
+	if fn.Synthetic == "" || len(fn.Blocks) == 0 {
+		return ""
+	}
+	for _, b := range fn.Blocks {
+		for _, ins := range b.Instrs {
+			if c, ok := ins.(*ssa.Call); ok && c.Call.IsInvoke() && c.Call.Method != nil {
+				return c.Call.Method.Name()
+			}
+		}
+	}
+	return ""
+}
+
 func (w *World) unwrapBound(fn *ssa.Function) *ssa.Function {
 	if fn.Synthetic == "" || len(fn.Blocks) == 0 {
 		return fn
